@@ -55,7 +55,7 @@ func (l segLit) kind() string {
 func runC12(x *Ctx) {
 	x.C.Rule("C12.R1", "every segment literal produced by Parse is dispatched by resolve to the kind it intends", 8)
 	x.C.Rule("C12.R2", "no early success return of a node inside the segment loop", 2)
-	x.C.Rule("C12.R3", "field and index cases fail through the optional idiom; siblings agree; a successful lookup is never dropped", 3)
+	x.C.Rule("C12.R3", "field and index cases fail through the optional idiom; siblings agree; a successful lookup is never dropped; iterator totality", 5)
 	x.C.Rule("C12.R4", "resolveSliceIndices gets the slice of the segment and the length of the collection sliced", 3)
 	x.C.Rule("C12.R5", "Select is resolve(selector, subject, nil)", 1)
 	x.C.Rule("C12.R6", "resolveSliceIndices computes Python's clamped slice on every region of (start, end, length)", 1)
@@ -547,4 +547,34 @@ func lookupResults(x *Ctx, res *ssa.Function, loop *paths.Loop, elem, cur string
 		}
 	}
 	x.C.Obl("C12.R3", "lookup-result-kept:resolve", x.pos(res), "a successful field lookup continues with the node found; only a failed lookup of an optional segment continues with 'no value'", bad == "" && n >= 2, bad)
+	// the iterator segment leaves the current value as it is only when that value is a list; on a map it becomes
+	// the list of the map's values (however many there are), on nothing - for an optional segment - the empty list
+	badI, nI := "", 0
+	kList, _ := x.kindConst("Kind_List")
+	for _, v := range lps {
+		if dispatchKind(v.Path, elem) != "iterator" {
+			continue
+		}
+		var stored *paths.Term
+		v.Instrs(func(in ssa.Instruction) {
+			if st, ok := in.(*ssa.Store); ok && v.Term(st.Addr).String() == cell && (in.Parent() != res || loop.Body[in.Block()]) {
+				stored = v.Term(st.Val)
+			}
+		})
+		nI++
+		if stored != nil {
+			continue
+		}
+		isList := false
+		for _, f := range v.Facts {
+			s := f.Atom.String()
+			if f.Pol && f.Atom.Op == "eq" && strings.Contains(s, fmt.Sprintf("const(%d)", kList)) && strings.Contains(s, "Node.Kind]("+cur+")") {
+				isList = true
+			}
+		}
+		if !isList {
+			badI += "an iterator segment leaves the current value unchanged on a path that does not know it to be a list:\n" + v.Path.String() + "\n"
+		}
+	}
+	x.C.Obl("C12.R3", "iterator-noop-on-lists-only:resolve", x.pos(res), "an iterator segment keeps the current value only when it is a list", badI == "" && nI >= 2, firstLines(badI, 12))
 }
